@@ -32,7 +32,7 @@ func verifDir() string {
 func newEngine() *Engine {
 	return &Engine{pkgs: map[string]*ssa.Package{}, cs: NewContracts(), heapSorts: map[string]heapSort{}, obls: map[string]*Obligation{},
 		srcCache: map[string][]string{}, strLits: map[string]string{}, unsup: map[string][]string{}, maxPaths: 4096, usedExt: map[string]bool{},
-		typeIDs: map[string]int{}, unknownCalls: map[string]bool{}, goSites: map[string][]*ssa.Go{}, rebound: map[string]string{}, lemmaSelf: map[string]string{}, implCache: map[string][]string{}}
+		typeIDs: map[string]int{}, unknownCalls: map[string]bool{}, goSites: map[string][]*ssa.Go{}, rebound: map[string]string{}, lemmaSelf: map[string]string{}, implCache: map[string][]string{}, assumedPosts: map[string]bool{}}
 }
 
 // load loads packages (import paths relative to the module, e.g. "rare/pkg/readahead") from the
